@@ -1,2 +1,113 @@
-(* placeholder: theorems being added *)
-From DC Require Import Model.Base Model.Bio.
+(* C19 - Sequence utilities obey their algebraic laws.
+   Property theorems only (each closed by [exact]); tables come from Generated/GenTables.v, which is
+   regenerated from /repo (csv files) and the installed Biopython on every run. *)
+From Coq Require Import ZArith Bool List Ascii String Lia Sorting.Sorted Permutation.
+From DC Require Import Model.Base Model.Bio Generated.GenTables Proofs.BioA Proofs.BioB Proofs.BioC.
+Import ListNotations.
+Open Scope Z_scope.
+
+(* (i) complement / reverse_complement *)
+Theorem C19_complement_is_basewise : forall s,
+  Forall (fun c => In c csv_alphabet) s -> complement s = Some (map comp_total s).
+Proof. exact complement_basewise. Qed.
+Print Assumptions C19_complement_is_basewise.
+
+Theorem C19_reverse_complement_involution : forall s,
+  Forall (fun c => In c csv_alphabet /\ c <> "U"%char) s ->
+  exists r, reverse_complement s = Some r /\ reverse_complement r = Some s.
+Proof. exact reverse_complement_involutive. Qed.
+Print Assumptions C19_reverse_complement_involution.
+
+Theorem C19_reverse_complement_on_dna : forall s : dna,
+  reverse_complement (to_astr s) = Some (to_astr (rc s)) /\ rc (rc s) = s /\
+  List.length (rc s) = List.length s.
+Proof. intro s; split; [apply reverse_complement_dna | split; [apply rc_involutive | apply rc_length]]. Qed.
+Print Assumptions C19_reverse_complement_on_dna.
+
+(* (ii) translate o reverse_translate = id, for every table without dual-use stop codons,
+   every protein over the table's amino acids (and "*"), every stream of random numbers *)
+Theorem C19_translate_reverse_translate : forall name T p ks,
+  In (name, T) genetic_tables -> no_dual_stop T = true ->
+  Forall (aa_known T) p ->
+  exists d, reverse_translate T p ks = Some d /\ translate T d = Some p.
+Proof. exact translate_reverse_translate. Qed.
+Print Assumptions C19_translate_reverse_translate.
+
+Theorem C19_dual_stop_tables_refuted :
+  exists name T p, In (name, T) genetic_tables /\ no_dual_stop T = false /\ Forall (aa_known T) p /\
+    exists d, reverse_translate T p [] = Some d /\ translate T d <> Some p.
+Proof. exact translate_reverse_translate_dual_refuted. Qed.
+Print Assumptions C19_dual_stop_tables_refuted.
+
+(* (iii) GC content: the cumulative-sum algorithm yields the counted fraction, one per window *)
+Theorem C19_gc_windows : forall (s : dna) w, 1 <= w <= zlen s ->
+  gc_window_counts s w = map (fun i => count_gc (slice s i (i + w))) (zrange 0 (zlen s - w + 1))
+  /\ zlen (gc_window_counts s w) = zlen s - w + 1.
+Proof. intros s w H; split; [apply gc_window_counts_spec | apply gc_window_counts_length]; exact H. Qed.
+Print Assumptions C19_gc_windows.
+
+Theorem C19_gc_windows_short_sequence : forall (s : dna) w, zlen s < w -> gc_window_counts s w = [].
+Proof. exact gc_window_counts_short. Qed.
+Print Assumptions C19_gc_windows_short_sequence.
+
+Theorem C19_gc_count_bounds : forall s : dna, 0 <= count_gc s <= zlen s.
+Proof. exact count_gc_bounds. Qed.
+Print Assumptions C19_gc_count_bounds.
+
+(* (iv) differences *)
+Theorem C19_diff_array : forall s t i, List.length s = List.length t ->
+  ((0 <= i /\ nth_error (diff_array s t) (Z.to_nat i) = Some true) <-> mismatch s t i)
+  /\ List.length (diff_array s t) = List.length s
+  /\ diff_count s t = zlen (filter (fun b : bool => b) (diff_array s t)).
+Proof.
+  intros s t i H; split; [apply diff_array_spec; exact H | split; [apply diff_array_length; exact H | apply diff_count_spec]].
+Qed.
+Print Assumptions C19_diff_array.
+
+Theorem C19_diff_segments_are_maximal_runs : forall s t, List.length s = List.length t ->
+  let segs := diff_segments s t in
+  (forall i, (exists p, In p segs /\ fst p <= i < snd p) <-> mismatch s t i) /\
+  Forall (fun p => 0 <= fst p < snd p /\ snd p <= zlen s) segs /\
+  StronglySorted (fun p q => snd p < fst q) segs.
+Proof. exact diff_segments_spec. Qed.
+Print Assumptions C19_diff_segments_are_maximal_runs.
+
+(* (v) window subdivision *)
+Theorem C19_subdivide_window : forall a b m, a < b -> 1 <= m ->
+  let ps := subdivide_window a b m in
+  chain a ps b /\ Forall (fun p => 1 <= snd p - fst p <= m) ps.
+Proof. exact subdivide_window_spec. Qed.
+Print Assumptions C19_subdivide_window.
+
+Theorem C19_subdivide_empty_window : forall a b m, b <= a -> 1 <= m -> subdivide_window a b m = [].
+Proof. exact subdivide_window_empty. Qed.
+Print Assumptions C19_subdivide_empty_window.
+
+(* (vi) grouping *)
+Theorem C19_sort : forall l,
+  Permutation l (sort_z l) /\ StronglySorted (fun x y => x <= y) (sort_z l).
+Proof. exact sort_z_sorted_perm. Qed.
+Print Assumptions C19_sort.
+
+Theorem C19_group_nearby_indices : forall l gap spread,
+  let gs := group_nearby_indices l gap spread in
+  List.concat gs = sort_z l /\ Forall (group_ok gap spread) gs /\ breaks_ok gap spread gs.
+Proof. exact group_nearby_indices_spec. Qed.
+Print Assumptions C19_group_nearby_indices.
+
+Theorem C19_group_nearby_segments : forall l gap spread,
+  let gs := group_nearby_segments l gap spread in
+  List.concat gs = sort_segs l /\ Forall (sgroup_ok gap spread) gs /\ sbreaks_ok gap spread gs.
+Proof. exact group_nearby_segments_spec. Qed.
+Print Assumptions C19_group_nearby_segments.
+
+(* Non-vacuity *)
+Example C19_ex_tables : List.length genetic_tables = 45%nat /\
+  List.length (filter (fun nt => no_dual_stop (snd nt)) genetic_tables) = 42%nat.
+Proof. vm_compute. split; reflexivity. Qed.
+Example C19_ex_gc : gc_window_counts (sq "ACGGTTCA") 3 = [2; 3; 2; 1; 1; 1].
+Proof. vm_compute. reflexivity. Qed.
+Example C19_ex_segments : diff_segments (sq "AAAAAAAA") (sq "ACCAAATA") = [(1, 3); (6, 7)].
+Proof. vm_compute. reflexivity. Qed.
+Example C19_ex_groups : group_nearby_indices [9; 1; 2; 4; 20] (Some 3) (Some 4) = [[1; 2; 4]; [9]; [20]].
+Proof. vm_compute. reflexivity. Qed.
